@@ -257,7 +257,7 @@ def typed_note_lists(scheme):
 TYPE_SCHEMES = NT_HOMOG + NT_ONOFF + NT_ALT
 CTVT = [(ct, vt) for ct in CT_TYPES for vt in VT_TYPES]
 TYPE_KW = dict(thr=[0, 64, 127], walk="updown", pq=PQ[0], ticks=0)
-TYPE_BLOCKS = 16
+TYPE_BLOCKS = 32
 
 
 def type_cases(tier, seed):
